@@ -258,67 +258,76 @@ def add_above(g, y, above, out_chunks, rng):
     return root
 
 
-def cases(rng, rounds):
-    """yields (prog, root, key); one round = the full MODES x BELOW x ABOVE product in random order"""
+def build_one(rng, mode, below, above, rank_deck, decorate=None, tag="kw"):
+    """one valid program of the combination (mode, below, above): (prog, root, key) or None.  `decorate(step, prog)` may add
+    keys to the recorded call's step right after it was generated (before anything is constructed)."""
     import warnings
 
+    made = None
+    for _try in range(6):
+        ranks = rank_deck.draw()
+        if mode.startswith("drop") and _try < 4 and len(set(ranks)) == 1 and rng.random() < 0.5:
+            continue  # lean towards mixed ranks under drop_axis
+        try:
+            r = gen_case(rng, mode, below, above, ranks)
+        except Exception as e:  # a generator slip must be visible, not fatal
+            _note("generator_exception:" + type(e).__name__)
+            r = None
+        if r is None:
+            continue
+        g, y, step = r
+        if decorate is not None:
+            decorate(step, g.prog)
+        # construction once, for the advertised output chunks (needed to build the consumers) and validity
+        with warnings.catch_warnings():
+            warnings.simplefilter("ignore")
+            try:
+                denv, cap = K.run_dask(g.prog, K.Recorder())
+            except Exception as e:
+                if K.constructs_plain(g.prog):
+                    # only the block_info/block_id payload builder refuses the call: C20.evaluate reports it
+                    made = (g.prog, y, (tag, mode, below, above, tuple(ranks) if step["args"] else ()))
+                    break
+                _note("construction_refused:" + type(e).__name__)
+                NOTES.setdefault("construction_refused.example", K.describe(g.prog) + " :: " + f"{type(e).__name__}: {str(e)[:160]}")
+                continue
+        oc = cap[y]["out_chunks"]
+        if any(0 in c for c in oc) or int(np.prod([sum(c) for c in oc])) > 1500:
+            continue
+        root = add_above(g, y, above, oc, rng)
+        # magnitudes far from int64 overflow (NumPy wraps silently, Python ints in the oracle do not)
+        try:
+            if above == "map_blocks":  # the second call's layouts
+                with warnings.catch_warnings():
+                    warnings.simplefilter("ignore")
+                    try:
+                        cap = K.run_dask(g.prog, K.Recorder())[1]
+                    except Exception:
+                        # evaluate() attributes the refusal (payload builder vs the call as such)
+                        made = (g.prog, root, (tag, mode, below, above, tuple(ranks) if step["args"] else ()))
+                        break
+            with np.errstate(all="ignore"):
+                npenv = K.run_numpy(g.prog, cap)
+            if any(v.size and int(np.abs(v).max()) > (1 << 50) for v in npenv.values()):
+                _note("skipped_large_values")
+                continue
+        except OverflowError:
+            _note("skipped_large_values")
+            continue
+        made = (g.prog, root, (tag, mode, below, above, tuple(ranks) if step["args"] else ()))
+        break
+    if made is None:
+        _note("no_case_for:" + mode)
+    return made
+
+
+def cases(rng, rounds):
+    """yields (prog, root, key); one round = the full MODES x BELOW x ABOVE product in random order"""
     rank_deck = _Deck(rng, RANKS)
     for _ in range(rounds):
         combos = list(itertools.product(MODES, BELOW, ABOVE))
         rng.shuffle(combos)
         for mode, below, above in combos:
-            made = None
-            for _try in range(6):
-                ranks = rank_deck.draw()
-                if mode.startswith("drop") and _try < 4 and len(set(ranks)) == 1 and rng.random() < 0.5:
-                    continue  # lean towards mixed ranks under drop_axis
-                try:
-                    r = gen_case(rng, mode, below, above, ranks)
-                except Exception as e:  # a generator slip must be visible, not fatal
-                    _note("generator_exception:" + type(e).__name__)
-                    r = None
-                if r is None:
-                    continue
-                g, y, step = r
-                # construction once, for the advertised output chunks (needed to build the consumers) and validity
-                with warnings.catch_warnings():
-                    warnings.simplefilter("ignore")
-                    try:
-                        denv, cap = K.run_dask(g.prog, K.Recorder())
-                    except Exception as e:
-                        if K.constructs_plain(g.prog):
-                            # only the block_info/block_id payload builder refuses the call: C20.evaluate reports it
-                            made = (g.prog, y, ("kw", mode, below, above, tuple(ranks) if step["args"] else ()))
-                            break
-                        _note("construction_refused:" + type(e).__name__)
-                        NOTES.setdefault("construction_refused.example", K.describe(g.prog) + " :: " + f"{type(e).__name__}: {str(e)[:160]}")
-                        continue
-                oc = cap[y]["out_chunks"]
-                if any(0 in c for c in oc) or int(np.prod([sum(c) for c in oc])) > 1500:
-                    continue
-                root = add_above(g, y, above, oc, rng)
-                # magnitudes far from int64 overflow (NumPy wraps silently, Python ints in the oracle do not)
-                try:
-                    if above == "map_blocks":  # the second call's layouts
-                        with warnings.catch_warnings():
-                            warnings.simplefilter("ignore")
-                            try:
-                                cap = K.run_dask(g.prog, K.Recorder())[1]
-                            except Exception:
-                                # evaluate() attributes the refusal (payload builder vs the call as such)
-                                made = (g.prog, root, ("kw", mode, below, above, tuple(ranks) if step["args"] else ()))
-                                break
-                    with np.errstate(all="ignore"):
-                        npenv = K.run_numpy(g.prog, cap)
-                    if any(v.size and int(np.abs(v).max()) > (1 << 50) for v in npenv.values()):
-                        _note("skipped_large_values")
-                        continue
-                except OverflowError:
-                    _note("skipped_large_values")
-                    continue
-                made = (g.prog, root, ("kw", mode, below, above, tuple(ranks) if step["args"] else ()))
-                break
-            if made is None:
-                _note("no_case_for:" + mode)
-                continue
-            yield made
+            made = build_one(rng, mode, below, above, rank_deck)
+            if made is not None:
+                yield made
